@@ -93,7 +93,9 @@ template <typename T> inline std::optional<TArr<T>> c12_broadcast_binary(int op,
 template <typename T> inline TArr<T> c12_outer(int op, const TArr<T>& a, const TArr<T>& b) {
     L so(a.shape); so.insert(so.end(), b.shape.begin(), b.shape.end());
     TArr<T> r(so);
-    each_index(a.shape, [&](const L& i) { each_index(b.shape, [&](const L& j) { L ij(i); ij.insert(ij.end(), j.begin(), j.end()); r.at(ij) = c12_binary<T>(op, a.at(i), b.at(j)); }); });
+    // the C-order position of the multi-index (i..., j...) is the running count when i is the outer and j the inner loop
+    long k = 0;
+    each_index(a.shape, [&](const L& i) { T x = a.at(i); each_index(b.shape, [&](const L& j) { r.data[(size_t)k++] = c12_binary<T>(op, x, b.at(j)); }); });
     return r;
 }
 // ufunc.reduce over one axis (axis == nullptr: over all elements, C order); left fold starting with the first element
